@@ -12,7 +12,7 @@
 
 use std::collections::{BTreeSet, VecDeque};
 
-use sfs_core::{array::Axis, Scs};
+use sfs_core::{array::Axis, spectrum::State, Scs, Sfs, Spectrum};
 
 use crate::{
     enumerate::for_each_index,
@@ -40,6 +40,14 @@ pub enum Op {
     Norm,
     /// fold and unfold with fill 0
     Fold,
+    /// zero the two monomorphic entries through the indexing operator (available in both states)
+    MaskIdx,
+    /// multiply the second entry by three through the indexing operator
+    Scale,
+    /// `into_normalized()`: from here on the value is typed as a frequency spectrum
+    IntoNorm,
+    /// `target.clone_from(&value)` where the target held a spectrum of the reversed shape
+    CloneFrom,
 }
 
 impl Op {
@@ -52,6 +60,10 @@ impl Op {
             Op::Mask => "mask".into(),
             Op::Norm => "norm".into(),
             Op::Fold => "fold".into(),
+            Op::MaskIdx => "maskidx".into(),
+            Op::Scale => "scale".into(),
+            Op::IntoNorm => "intonorm".into(),
+            Op::CloneFrom => "clonefrom".into(),
         }
     }
     pub fn parse(s: &str) -> Option<Op> {
@@ -60,6 +72,10 @@ impl Op {
             "mask" => Op::Mask,
             "norm" => Op::Norm,
             "fold" => Op::Fold,
+            "maskidx" => Op::MaskIdx,
+            "scale" => Op::Scale,
+            "intonorm" => Op::IntoNorm,
+            "clonefrom" => Op::CloneFrom,
             _ => {
                 let (k, rest) = s.split_at(1);
                 match k {
@@ -100,7 +116,10 @@ fn enabled(shape: &[usize]) -> Vec<Op> {
     if shape.iter().any(|n| *n > 1) {
         v.push(Op::PMin);
     }
-    v.extend([Op::Mask, Op::Norm, Op::Fold]);
+    v.extend([Op::Mask, Op::Norm, Op::Fold, Op::MaskIdx, Op::IntoNorm, Op::CloneFrom]);
+    if shape.iter().product::<usize>() >= 2 {
+        v.push(Op::Scale);
+    }
     v
 }
 
@@ -114,14 +133,20 @@ fn apply_ref(x: &RefArray, op: &Op) -> RefArray {
             x.project(&t)
         }
         Op::PMin => x.project(&vec![1; x.shape.len()]),
-        Op::Mask => {
+        Op::Mask | Op::MaskIdx => {
             let mut y = x.clone();
             let n = y.data.len();
             y.data[0] = 0.0;
             y.data[n - 1] = 0.0;
             y
         }
-        Op::Norm => {
+        Op::Scale => {
+            let mut y = x.clone();
+            y.data[1] *= 3.0;
+            y
+        }
+        Op::CloneFrom => x.clone(),
+        Op::Norm | Op::IntoNorm => {
             let s = x.sum();
             RefArray { shape: x.shape.clone(), data: x.data.iter().map(|v| v / s).collect() }
         }
@@ -129,7 +154,30 @@ fn apply_ref(x: &RefArray, op: &Op) -> RefArray {
     }
 }
 
-fn apply_real(x: &Scs, op: &Op) -> Result<Scs, String> {
+/// The live value: a count spectrum, or - after `into_normalized` - a frequency spectrum.
+#[derive(Clone)]
+pub enum Live {
+    Counts(Scs),
+    Freqs(Sfs),
+}
+
+impl Live {
+    fn is_freqs(&self) -> bool {
+        matches!(self, Live::Freqs(_))
+    }
+}
+
+fn index_of_flat(shape: &[usize], mut flat: usize) -> Vec<usize> {
+    let mut idx = vec![0usize; shape.len()];
+    for a in (0..shape.len()).rev() {
+        idx[a] = flat % shape[a];
+        flat /= shape[a];
+    }
+    idx
+}
+
+/// The operations every state offers.
+fn apply_generic<S: State>(x: &Spectrum<S>, op: &Op, other: impl Fn(&[usize]) -> Spectrum<S>) -> Result<Spectrum<S>, String> {
     match op {
         Op::M(a) => x.marginalize(&[Axis(*a)]).map_err(|e| e.to_string()),
         Op::M2(a, b) => x.marginalize(&[Axis(*a), Axis(*b)]).map_err(|e| e.to_string()),
@@ -139,12 +187,18 @@ fn apply_real(x: &Scs, op: &Op) -> Result<Scs, String> {
             x.project(t).map_err(|e| e.to_string())
         }
         Op::PMin => x.project(vec![1; x.dimensions()]).map_err(|e| e.to_string()),
-        Op::Mask => {
+        Op::MaskIdx | Op::Mask => {
             let mut y = x.clone();
-            let raw = y.inner_mut().as_mut_slice();
-            let n = raw.len();
-            raw[0] = 0.0;
-            raw[n - 1] = 0.0;
+            let shape = y.shape().to_vec();
+            let n = y.elements();
+            y[index_of_flat(&shape, 0)] = 0.0;
+            y[index_of_flat(&shape, n - 1)] = 0.0;
+            Ok(y)
+        }
+        Op::Scale => {
+            let mut y = x.clone();
+            let shape = y.shape().to_vec();
+            y[index_of_flat(&shape, 1)] *= 3.0;
             Ok(y)
         }
         Op::Norm => {
@@ -153,6 +207,33 @@ fn apply_real(x: &Scs, op: &Op) -> Result<Scs, String> {
             Ok(y)
         }
         Op::Fold => Ok(x.fold().into_spectrum(0.0)),
+        Op::CloneFrom => {
+            let mut rev = x.shape().to_vec();
+            rev.reverse();
+            let mut target = other(&rev);
+            target.clone_from(x);
+            Ok(target)
+        }
+        Op::IntoNorm => Err("not a same-state operation".into()),
+    }
+}
+
+fn apply_real(x: &Live, op: &Op) -> Result<Live, String> {
+    let other_counts = |shape: &[usize]| scs_from_ref(&RefArray::from_fn(shape, |f, _| 1000.0 + f as f64));
+    match (x, op) {
+        (Live::Counts(c), Op::IntoNorm) => Ok(Live::Freqs(c.clone().into_normalized())),
+        (Live::Freqs(f), Op::IntoNorm) => Ok(Live::Freqs(f.clone().into_normalized())),
+        // masking a count spectrum the way `view --mask-monomorphic` does, through inner_mut
+        (Live::Counts(c), Op::Mask) => {
+            let mut y = c.clone();
+            let raw = y.inner_mut().as_mut_slice();
+            let n = raw.len();
+            raw[0] = 0.0;
+            raw[n - 1] = 0.0;
+            Ok(Live::Counts(y))
+        }
+        (Live::Counts(c), op) => apply_generic(c, op, other_counts).map(Live::Counts),
+        (Live::Freqs(f), op) => apply_generic(f, op, |shape| other_counts(shape).into_normalized()).map(Live::Freqs),
     }
 }
 
@@ -161,7 +242,14 @@ fn close(a: f64, b: f64) -> bool {
 }
 
 /// Complete observation of the real object against the reference; returns the first discrepancy.
-fn observe(real: &Scs, expect: &RefArray) -> Option<String> {
+fn observe(live: &Live, expect: &RefArray) -> Option<String> {
+    match live {
+        Live::Counts(c) => observe_spectrum(c, expect),
+        Live::Freqs(f) => observe_spectrum(f, expect),
+    }
+}
+
+fn observe_spectrum<S: State>(real: &Spectrum<S>, expect: &RefArray) -> Option<String> {
     if real.shape().to_vec() != expect.shape {
         return Some(format!("shape {:?}, reference {:?}", real.shape().to_vec(), expect.shape));
     }
@@ -214,12 +302,12 @@ pub struct Explored {
     pub viols: Vec<Viol>,
 }
 
-fn key_of(x: &RefArray) -> (Vec<usize>, Vec<u64>) {
+fn key_of(x: &RefArray, freqs: bool) -> (bool, Vec<usize>, Vec<u64>) {
     // canonical key: shape + reference values rounded to 40 mantissa bits, so that floating-point
     // summation order between commuting paths does not split states; merged states have the same
     // futures under the reference up to that rounding, and the real object of *every* path is
     // compared with its own reference before the key is consulted
-    (x.shape.clone(), x.data.iter().map(|v| if v.is_nan() { u64::MAX } else { v.to_bits() >> 12 }).collect())
+    (freqs, x.shape.clone(), x.data.iter().map(|v| if v.is_nan() { u64::MAX } else { v.to_bits() >> 12 }).collect())
 }
 
 fn hist_str(h: &[Op]) -> String {
@@ -228,8 +316,8 @@ fn hist_str(h: &[Op]) -> String {
 
 /// Replays one history on the real objects, checking after every step; used by the search (for the
 /// last step) and by --replay (for all steps).
-pub fn run_history(init: &RefArray, hist: &[Op]) -> Result<(Scs, RefArray), Viol> {
-    let mut real = scs_from_ref(init);
+pub fn run_history(init: &RefArray, hist: &[Op]) -> Result<(Live, RefArray), Viol> {
+    let mut real = Live::Counts(scs_from_ref(init));
     let mut expect = init.clone();
     for (i, op) in hist.iter().enumerate() {
         let case = || J::obj([("kind", J::s("c13-lib")), ("shape", J::usizes(&init.shape)), ("values", J::f64s(&init.data)), ("history", J::s(hist_str(&hist[..=i])))]);
@@ -259,12 +347,12 @@ pub fn run_history(init: &RefArray, hist: &[Op]) -> Result<(Scs, RefArray), Viol
 
 /// Breadth-first search from `init` up to `max_depth` operations.
 pub fn explore(init: &RefArray, max_depth: usize, max_states: usize) -> Explored {
-    let mut seen: BTreeSet<(Vec<usize>, Vec<u64>)> = BTreeSet::new();
+    let mut seen: BTreeSet<(bool, Vec<usize>, Vec<u64>)> = BTreeSet::new();
     // a state is carried as the live real object + its reference + the history that reached it
-    let mut frontier: VecDeque<(Scs, RefArray, Vec<Op>)> = VecDeque::new();
+    let mut frontier: VecDeque<(Live, RefArray, Vec<Op>)> = VecDeque::new();
     let mut out = Explored { states: 1, transitions: 0, max_depth: 0, closed: true, viols: Vec::new() };
-    seen.insert(key_of(init));
-    frontier.push_back((scs_from_ref(init), init.clone(), Vec::new()));
+    seen.insert(key_of(init, false));
+    frontier.push_back((Live::Counts(scs_from_ref(init)), init.clone(), Vec::new()));
     let mut reported: BTreeSet<String> = BTreeSet::new();
     while let Some((real, expect, hist)) = frontier.pop_front() {
         if hist.len() >= max_depth {
@@ -301,7 +389,7 @@ pub fn explore(init: &RefArray, max_depth: usize, max_states: usize) -> Explored
             if nref.data.iter().any(|v| v.is_nan()) {
                 continue; // 0/0 after normalizing an all-zero spectrum: terminal
             }
-            if seen.insert(key_of(&nref)) {
+            if seen.insert(key_of(&nref, r.is_freqs())) {
                 out.states += 1;
                 if seen.len() > max_states {
                     out.closed = false;
@@ -312,4 +400,30 @@ pub fn explore(init: &RefArray, max_depth: usize, max_states: usize) -> Explored
         }
     }
     out
+}
+
+/// A statistic of the live value, the way a library user asks for it: the normalized statistics on
+/// `value.clone().into_normalized()`, the others on the value itself (both states offer them).
+pub fn live_stat(live: &Live, stat: &str) -> Result<f64, String> {
+    fn on<S: State>(x: &Spectrum<S>, stat: &str) -> Result<f64, String> {
+        let r = match stat {
+            "f2" => x.clone().into_normalized().f2(),
+            "f3" => x.clone().into_normalized().f3(),
+            "f4" => x.clone().into_normalized().f4(),
+            "fst" => x.clone().into_normalized().fst(),
+            "king" => x.king(),
+            "pi" => x.pi(),
+            "pi-xy" => x.pi_xy(),
+            "r0" => x.r0(),
+            "r1" => x.r1(),
+            "sum" => Ok(x.sum()),
+            "theta" => x.theta_watterson(),
+            _ => return Err("statistic not offered in this state".into()),
+        };
+        r.map_err(|e| e.to_string())
+    }
+    match live {
+        Live::Counts(c) => on(c, stat),
+        Live::Freqs(f) => on(f, stat),
+    }
 }
